@@ -363,6 +363,11 @@ def site_clean(w, labs, ds, acc):
     def run():
         plan = w.plan()
         w.wf.declare_static_files(plan, [x for x in labs if x != "plan.py"])
+        # steps whose command text equals one of the file paths: a step is not a path, so
+        # nothing it writes depends on the files the selection finds
+        for i, lab in enumerate(x for x in labs if x != "plan.py"):
+            if i % 7 == 0:
+                w.wf.define_step(plan, lab, vol_paths=[f"zz{i}.log"])
         # the same selection inside the director's own (read-write) session
         return {d: su_clean.search_matching_paths(w.db._con, {Path(d[:-1])}) for d in ds}
 
@@ -376,6 +381,16 @@ def site_clean(w, labs, ds, acc):
         con = su_tool.connect_graph_db()
         try:
             res_ro = {d: su_clean.search_matching_paths(con, {Path(d[:-1])}) for d in ds}
+            for d in ds:
+                acc.evaluations += 1
+                dependents = su_clean.search_consuming_paths(con, sorted(res_ro[d]), False)
+                foreign = sorted(str(r[0]) for r in dependents if str(r[0]).startswith("zz"))
+                if foreign:
+                    acc.violation(f"C18|clean.search_consuming_paths|step-named-like-a-path|{d}",
+                                  {"site": "clean.search_consuming_paths", "directory": d,
+                                   "why": "outputs of steps whose command text equals a selected path are "
+                                          "selected although no file under the directory leads to them",
+                                   "selected": foreign[:5]}, None)
         finally:
             con.close()
     finally:
